@@ -45,7 +45,8 @@ def gen_block(rng, files, used_names):
         if rng.random() < 0.3:
             keys["Type"] = rng.choice("09")
     else:
-        keys["Path"] = "./" + rng.choice(files)
+        # hide a file; sometimes one that is not (or no longer) there: nothing to hide, nothing else changes
+        keys["Path"] = "./" + (rng.choice(files) if rng.random() < 0.8 else rng.choice(["gone.txt", "backup~", "removed last week.txt"]))
         keys["Type"] = "X"
     if rng.random() < 0.5 and kind != "hide":
         keys["Numb"] = str(rng.choice([1, 2, 3, 5, 10, -1, -2, -7, 0]))
@@ -90,6 +91,8 @@ def reference(dirsel, present_files, blocks, caps, names_display, abstracts):
                     hidden.add(f)
                 else:
                     apply(entries[f], keys)
+            elif f not in entries and keys.get("Type") == "X":
+                pass        # a hide block for a file that is not listed hides nothing
             elif f not in entries:
                 e = {"type": None, "name": None, "sel": dirsel + "/" + f, "host": SRV[0], "port": SRV[1], "num": 0}
                 apply(e, keys)
@@ -147,12 +150,19 @@ def run(ctx):
                 text = ""
                 nb = rng.randint(0, 5)
                 targets = set()
-                for _ in range(nb):
+                hidden_targets = set()
+                for bi in range(nb):
                     t, keys = gen_block(rng, present, used)
+                    if i % 5 == 0 and bi == nb - 1 and hidden_targets:
+                        # a second block for a file an earlier block hides (another link file, a leftover): it stays hidden
+                        p0 = sorted(hidden_targets)[0]
+                        t, keys = (f"Path={p0}\nType=X\n", {"Path": p0, "Type": "X"}) if rng.random() < 0.6 else (f"Path={p0}\nName=Late name\n", {"Path": p0, "Name": "Late name"})
                     if keys["Path"].startswith("./"):
-                        if keys["Path"] in targets:
-                            continue   # two blocks for one file: order of application is a tie-break the property leaves open
+                        if keys["Path"] in targets and keys["Path"] not in hidden_targets:
+                            continue   # two overriding blocks for one file: order of application is a tie-break the property leaves open
                         targets.add(keys["Path"])
+                        if keys.get("Type") == "X":
+                            hidden_targets.add(keys["Path"])
                     blocks.append(keys)
                     text += t + rng.choice(["\n", "\n\n", "\n# between blocks\n\n" if False else "\n"])
                 if blocks:
@@ -197,7 +207,7 @@ def run(ctx):
                 inp = {"dir": d, "extstrip": mode, "files": present, "linkfile": text, "caps": caps}
                 rp = {"extstrip": mode, "files": present, "linkfile": text, "caps": caps, "abstracts": abstracts}
                 cls, _ = reqs.classify("gopher", r.out)
-                if cls == "notfound" or r.exc:
+                if cls in ("notfound", "none") or r.exc:
                     res.violation("C08:listing-failed", "a directory with well-formed link files is not listed", inp, observed=(r.out or b"")[:120], required="listing", replay=rp)
                     continue
                 got = [(e[0], e[1], e[2], e[3], e[4]) for e in parse_gopher(r.out) if not (e[0] == "i" and e[2] == "fake")]
